@@ -321,6 +321,9 @@ func (r *Run) addViolation(sub string, descJSON []byte, res Result) {
 		}
 	}
 	dir := filepath.Join(r.Verif, "replays", r.Prop)
+	if alt := os.Getenv("VERIF_REPLAYS"); alt != "" {
+		dir = filepath.Join(alt, r.Prop)
+	}
 	_ = os.MkdirAll(dir, 0o755)
 	name := fmt.Sprintf("%s-%016x.json", sanitize(sub), hash64(append([]byte(res.Key), descJSON...)))
 	path := filepath.Join(dir, name)
